@@ -726,11 +726,15 @@ func (p *Printer) symbol(s model.Sym, inSexp bool, isAnnotation bool) {
 			return
 		}
 	}
-	if inSexp && !isAnnotation && isOperatorText(s.Text) && s.Text != "+" && s.Text != "-" && !strings.HasSuffix(s.Text, "+") && !strings.HasSuffix(s.Text, "-") && !strings.HasSuffix(s.Text, ".") {
+	if inSexp && !isAnnotation && isOperatorText(s.Text) && s.Text != "+" && s.Text != "-" && !strings.HasSuffix(s.Text, "+") && !strings.HasSuffix(s.Text, "-") {
 		if p.choose("symbol.bare-operator", 2) == 1 {
-			// bare operator followed by required whitespace so that it cannot
-			// merge with what follows
-			p.w(s.Text + " ")
+			// bare operator: what follows inside an s-expression is whitespace of
+			// any kind, an opening bracket, a double quote or the closing paren
+			// (the s-expression printer sees to that), so nothing can merge with it
+			p.w(s.Text)
+			if p.C.Intn(3) == 0 {
+				p.w(" ")
+			}
 			return
 		}
 	}
